@@ -3,7 +3,8 @@
    Only statements, each closed by `exact <lemma>`, its assumptions printed, and Examples
    showing that the hypotheses are met by non-trivial values. *)
 From Pybtex Require Import Base.Prelude Base.PyChar Base.PyStr
-  Model.Plugins Model.IO Model.EntryPoints Proofs.Plugins Proofs.IO Proofs.EntryPoints.
+  Model.Plugins Model.IO Model.EntryPoints Model.YamlWriter
+  Proofs.Plugins Proofs.IO Proofs.EntryPoints Proofs.YamlWriter Proofs.Utf8.
 
 (* ===== the plug-in registry (pybtex/plugin/__init__.py), for every state of
    _RUNTIME_PLUGINS, every table of installed entry points and every _DEFAULT_PLUGINS ===== *)
@@ -148,6 +149,24 @@ Theorem entry_points_agree_file : forall db ps cd u s b data,
 Proof. exact Proofs.EntryPoints.entry_points_agree_file. Qed.
 Print Assumptions entry_points_agree_file.
 
+(* the codec hypotheses are theorems for the default encoding: UTF-8 decodes (as bytes and as a
+   text file) what it encoded, for every text *)
+Theorem utf8_roundtrip : forall s b,
+  enc codec_utf8 s = Some b -> dec codec_utf8 b = Some s /\ fdec codec_utf8 b = FText s.
+Proof. exact Proofs.Utf8.utf8_roundtrip. Qed.
+Print Assumptions utf8_roundtrip.
+
+(* ... so with the default encoding the entry points agree unconditionally on every text that
+   can be encoded at all *)
+Theorem utf8_entry_points_agree : forall db ps u s b data,
+  enc codec_utf8 s = Some b ->
+  parse_bytes db ps codec_utf8 u b data = parse_string db ps codec_utf8 u s data /\
+  parse_file db ps codec_utf8 u (FStream (own_stream u s b)) data = parse_string db ps codec_utf8 u s data /\
+  parse_file db ps codec_utf8 u (FOpened b) data
+    = parse_string db ps codec_utf8 u (if u then universal_newlines s else s) data.
+Proof. exact Proofs.Utf8.utf8_entry_points_agree. Qed.
+Print Assumptions utf8_entry_points_agree.
+
 (* to_bytes is the to_string document encoded *)
 Theorem to_bytes_is_encoded_to_string : forall wd ws cd u d t,
   (u = false -> forall b t', dec cd b = Some t' -> enc cd t' = Some b) ->
@@ -155,6 +174,31 @@ Theorem to_bytes_is_encoded_to_string : forall wd ws cd u d t,
   to_bytes wd ws cd u d = match enc cd t with Some b => Ok b | None => Crash end.
 Proof. exact Proofs.EntryPoints.to_bytes_is_encoded_to_string. Qed.
 Print Assumptions to_bytes_is_encoded_to_string.
+
+(* the YAML writer overrides to_string / to_bytes: "to_bytes is the to_string document encoded"
+   in the encoding the writer was created with is REFUTED (finding FC17a): it never consults
+   self.encoding.  Witness: Latin-1, the text U+00E9. *)
+Theorem yaml_to_bytes_refuted :
+  exists (dump_text dump_utf8 : str -> res str) cd d,
+    dump_consistent dump_text dump_utf8 /\
+    (exists b, enc cd d = Some b) /\
+    yaml_to_bytes str dump_utf8 d <> encode_with cd (yaml_to_string str dump_text d).
+Proof. exact Proofs.YamlWriter.yaml_to_bytes_refuted. Qed.
+Print Assumptions yaml_to_bytes_refuted.
+
+(* strongest true variant: it is the to_string document encoded in UTF-8, and write_file
+   writes exactly those bytes *)
+Theorem yaml_to_bytes_partial : forall wd (dump_text dump_utf8 : wd -> res str) d,
+  dump_consistent dump_text dump_utf8 ->
+  yaml_to_bytes wd dump_utf8 d = encode_with codec_utf8 (yaml_to_string wd dump_text d).
+Proof. exact Proofs.YamlWriter.yaml_to_bytes_partial. Qed.
+Print Assumptions yaml_to_bytes_partial.
+
+Theorem yaml_write_file_writes_to_bytes : forall wd (dump_utf8 : wd -> res str) cd d,
+  yaml_write_file wd dump_utf8 cd d WOpened
+  = (do b <- yaml_to_bytes wd dump_utf8 d; Ok (None, Some (SBytes b))).
+Proof. exact Proofs.YamlWriter.yaml_write_file_writes_to_bytes. Qed.
+Print Assumptions yaml_write_file_writes_to_bytes.
 
 (* writing to a file writes exactly those bytes -- REFUTED as stated (finding FC17b): a writer
    that never calls write() leaves the file empty while to_bytes of the empty document is the
